@@ -45,7 +45,6 @@
 EXTENDS Integers, Sequences, FiniteSets, TLC, Json
 
 CONSTANTS
-  Mode,      \* "law" | "roll" | "conc": which family Init enumerates / runs
   Ns,        \* law: counts checked directly (each < 2^31 - 8)
   BigQs,     \* law: q of the counts 8*q + r beyond TLC's integers
   IncMax,    \* law: counts up to IncMax are also replayed by calling Inc n times
@@ -88,6 +87,12 @@ PublishedQ(q, r) == CHOOSE pq \in q..(q + 1) : LawfulQ(q, r, pq)
 (* 4. Observations of a concurrent counter. *)
 
 ReadOK(lo, hi, obs) == \E k \in lo..hi : obs = Published(k)
+(* The same without enumerating lo..hi (a Gather of the real registry overlaps
+   thousands of Incs in a herd): Published is monotone and takes every multiple
+   of 8 from Published(lo) to Published(hi).  WindowLemma is checked by TLC on
+   all small windows in the run that judges a trace (Trace.cfg). *)
+ReadOKFast(lo, hi, obs) == lo <= hi /\ obs % 8 = 0 /\ Published(lo) <= obs /\ obs <= Published(hi)
+WindowLemma == \A lo \in 0..17 : \A hi \in 0..17 : \A obs \in 0..26 : ReadOK(lo, hi, obs) <=> ReadOKFast(lo, hi, obs)
 QuietOK(n, obs) == obs = Published(n)
 (* consequences of ReadOK, named after the clauses of the statement *)
 ReadNeverLow(lo, hi, obs) == obs >= lo
@@ -96,6 +101,7 @@ ReadAtMost7(lo, hi, obs)  == obs - hi <= 7
 
 -----------------------------------------------------------------------------
 VARIABLES
+  kind,                       \* "law" | "roll" | "conc": what this behaviour is about
   q, r, n,                    \* law case (n = -1 when only q, r are meaningful)
   n1, n2,                     \* roll case: events in period 1 and in period 2
   total, value,               \* conc: the two words of the counter
@@ -108,7 +114,7 @@ VARIABLES
 lawvars  == <<q, r, n>>
 rollvars == <<n1, n2>>
 concvars == <<total, value, pc, pend, tr, vr, left, lock, started, completed, rpc, rlo, robs, rleft, last, prev>>
-vars == <<lawvars, rollvars, concvars>>
+vars == <<kind, lawvars, rollvars, concvars>>
 
 IdleConc ==
   /\ total = 0 /\ value = 0 /\ pc = [c \in Callers |-> "idle"] /\ pend = [c \in Callers |-> {}]
@@ -118,13 +124,13 @@ IdleConc ==
 
 (* -- law cases -- *)
 InitLaw ==
-  /\ Mode = "law"
+  /\ kind = "law"
   /\ \/ (n \in Ns /\ q = n \div 8 /\ r = n % 8)
      \/ (n = -1 /\ q \in BigQs /\ r \in {0, 1, 7})
   /\ n1 = 0 /\ n2 = 0 /\ IdleConc
 
 LawHolds ==
-  Mode = "law" =>
+  kind = "law" =>
     /\ (n >= 0 => LawDetermines(n) /\ LawIsCeil8(n) /\ Published(n) = 8 * PublishedQ(q, r))
     /\ LawfulQ(q, r, PublishedQ(q, r))
     /\ \A pq \in (q - 1)..(q + 2) : LawfulQ(q, r, pq) => pq = PublishedQ(q, r)
@@ -133,8 +139,10 @@ LawHolds ==
    Period 1 sees n1 events, then printMetrics + zeroMetrics, then period 2
    sees n2 events and is printed.  The log restarts, Prometheus does not. *)
 InitRoll ==
-  /\ Mode = "roll" /\ n1 \in RollNs /\ n2 \in RollNs
+  /\ kind = "roll" /\ n1 \in RollNs /\ n2 \in RollNs
   /\ q = 0 /\ r = 0 /\ n = 0 /\ IdleConc
+
+InitCases == InitLaw \/ InitRoll
 
 RollExpect(a, b) ==
   [log1 |-> Published(a), prom1 |-> Published(a),
@@ -145,7 +153,7 @@ RollExpect(a, b) ==
 (* 3. The concurrent object. *)
 
 InitConc ==
-  /\ Mode = "conc"
+  /\ kind = "conc"
   /\ q = 0 /\ r = 0 /\ n = 0 /\ n1 = 0 /\ n2 = 0
   /\ total \in Start /\ value = Published(total)       \* a quiescent state after `total` sequential Incs
   /\ started = total /\ completed = total
@@ -156,7 +164,7 @@ InitConc ==
   /\ rpc = "idle" /\ rlo = 0 /\ robs = 0 /\ rleft = Reads /\ last = NoRead /\ prev = 0
 
 UnchangedReader == UNCHANGED <<rpc, rlo, robs, rleft, last, prev>>
-UnchangedCase == UNCHANGED <<lawvars, rollvars>>
+UnchangedCase == UNCHANGED <<kind, lawvars, rollvars>>
 
 (* Inc is invoked (the harness counts it as started before it runs). *)
 Call(c) ==
@@ -241,7 +249,7 @@ Stutter == UNCHANGED vars
 SpecConc == InitConc /\ [][NextConc]_vars
 
 TypeOK ==
-  Mode = "conc" =>
+  kind = "conc" =>
     /\ total \in Nat /\ value \in Nat /\ started \in Nat /\ completed \in Nat
     /\ pc \in [Callers -> {"idle", "lock", "add", "rd", "addv", "ret"}]
     /\ pend \in [Callers -> SUBSET {"t", "v"}]
@@ -253,24 +261,24 @@ Quiescent == (\A c \in Callers : pc[c] = "idle") /\ rpc = "idle"
 PublishedNow == IF Alg = "pinned" THEN value ELSE Ceil8(total)
 
 (* C19 on the concurrent object. *)
-ReadsLinearizable == (Mode = "conc" /\ last # NoRead) => ReadOK(last.lo, last.hi, last.obs)
-ReadsNeverLow     == (Mode = "conc" /\ last # NoRead) => ReadNeverLow(last.lo, last.hi, last.obs)
-ReadsMultiple     == (Mode = "conc" /\ last # NoRead) => ReadMultiple(last.lo, last.hi, last.obs)
-ReadsAtMost7      == (Mode = "conc" /\ last # NoRead) => ReadAtMost7(last.lo, last.hi, last.obs)
-ReadsMonotone     == (Mode = "conc" /\ last # NoRead) => last.obs >= prev
-QuiescentExact    == (Mode = "conc" /\ Quiescent) => (total = completed /\ QuietOK(total, PublishedNow))
+ReadsLinearizable == (kind = "conc" /\ last # NoRead) => ReadOK(last.lo, last.hi, last.obs)
+ReadsNeverLow     == (kind = "conc" /\ last # NoRead) => ReadNeverLow(last.lo, last.hi, last.obs)
+ReadsMultiple     == (kind = "conc" /\ last # NoRead) => ReadMultiple(last.lo, last.hi, last.obs)
+ReadsAtMost7      == (kind = "conc" /\ last # NoRead) => ReadAtMost7(last.lo, last.hi, last.obs)
+ReadsMonotone     == (kind = "conc" /\ last # NoRead) => last.obs >= prev
+QuiescentExact    == (kind = "conc" /\ Quiescent) => (total = completed /\ QuietOK(total, PublishedNow))
 (* the two words of the pinned counter never drift apart by more than the
    Incs in flight (what "rounded value tracks ceil8(true)" means between reads) *)
-ValueTracksTotal  == (Mode = "conc" /\ Alg = "pinned") => \E k \in completed..started : value = Published(k)
+ValueTracksTotal  == (kind = "conc" /\ Alg = "pinned") => \E k \in completed..started : value = Published(k)
 
 -----------------------------------------------------------------------------
 (* Case emission (NEXT Stutter, one worker). *)
 Emit ==
-  IF Mode = "law"
+  IF kind = "law"
   THEN PrintT(ToJson([kind |-> "law", n |-> n, q |-> q, r |-> r, pq |-> PublishedQ(q, r),
                       expect |-> (IF n >= 0 THEN Published(n) ELSE -1),
                       inc |-> (n >= 0 /\ n <= IncMax)]))
-  ELSE IF Mode = "roll"
+  ELSE IF kind = "roll"
   THEN PrintT(ToJson([kind |-> "roll", n1 |-> n1, n2 |-> n2, expect |-> RollExpect(n1, n2)]))
   ELSE TRUE
 =============================================================================
